@@ -7,7 +7,7 @@ CONSTANTS
   NZ = 1
   MaxReq = 3
   MaxPureTaken = 8
-  NForeign = 1
+  NForeign = 0
   CJ = TRUE
 INIT Init
 NEXT Next
